@@ -940,6 +940,8 @@ class SymX:
                 out.heap[k] = va
             else:
                 base_attr = ("attr", k[0], k[1])
+                if k[0] == "#box":
+                    base_attr = self.box_init.get(k[1], ("unk", f"contents of container #{k[1]}", 0))  # not mutated on that path
                 out.heap[k] = phi([(ga, va if va is not None else base_attr), (gb, vb if vb is not None else base_attr)])
         return out
 
@@ -1169,7 +1171,13 @@ class SymX:
                     tg = [n.target]
                 for t in tg:
                     plain |= {x.id for x in ast.walk(t) if isinstance(x, ast.Name)}
-        return {n for n in aug - plain if st.env.get(n, ("x",))[0] == "box"}
+        # `xs += [..]` / `xs += [.. for ..]`: only a list can be extended by a list, whatever xs is known to be
+        listy: dict[str, bool] = {}
+        for b in body:
+            for n in _walk_own(b):
+                if isinstance(n, ast.AugAssign) and isinstance(n.target, ast.Name) and isinstance(n.op, ast.Add):
+                    listy[n.target.id] = listy.get(n.target.id, True) and isinstance(n.value, (ast.List, ast.ListComp))
+        return {n for n in aug - plain if st.env.get(n, ("x",))[0] == "box" or listy.get(n, False)}
 
     @staticmethod
     def _lag_variables(s: ast.For, pre: State, it: Term) -> dict[str, Term]:
@@ -1497,6 +1505,11 @@ class SymX:
         cur = self.eval(s.target, st)
         val = self.eval(s.value, st)
         op = _BINOPS.get(type(s.op), "?")
+        if cur[0] != "box" and op == "+" and (val[0] in ("list",) or val[0] == "box" and val[2] == "list" or val[0] == "comp" and val[1] == "list") and isinstance(s.target, ast.Name):
+            # `xs += [..]` with a list on the right: xs is a list, extended in place (the name keeps denoting the same object)
+            self._record("mut", ("method", "extend"), cur, "extend", (val,), (), st, s, None)
+            self._mutate(cur, "extend", (val,), st)
+            return st
         if cur[0] == "box" and op in ("+", "|"):
             self._record("mut", ("method", "extend" if op == "+" else "update"), cur, "extend" if op == "+" else "update", (val,), (), st, s, None)
             self._mutate(cur, "extend" if op == "+" else "update", (val,), st)
